@@ -281,6 +281,28 @@ def generic_crash_violations(prop, res, sanitizer_counts=True):
     return v
 
 
+def spin_violations(prop, res, error_cycles=None):
+    """a connection that the (level-triggered) poll reports readable while the driver, in that pass, neither reads it nor does
+    anything else (no LPC instruction, no socket call): nothing has changed, so the next poll reports the same - in deployment
+    a busy loop, and that client is never served again.  Two such passes in a row are reported.  (A pass that served a
+    buffered command, or that an uncaught error cut short, is not one: a user whose input buffer is full of pending commands
+    is legitimately not read until there is room.)"""
+    instr = {}; active = set()
+    for e in res.events:
+        if e.kind == 'cycle': instr[e.cycle] = int(e.kv().get('instr', 0))
+        elif e.kind in ('recv', 'tx', 'accept', 'close', 'fault_fired', 'R', 'D', 'cons_tx', 'eventfd_read', 'fs'): active.add(e.cycle)
+    runs = {}
+    for e in res.events:
+        if e.kind != 'unread': continue
+        kv = e.kv(); c = kv.get('conn'); k = e.cycle - 1           # written at the start of cycle k+1 about the pass made in cycle k
+        idle = k in instr and e.cycle in instr and instr[e.cycle] == instr[k] and k not in active and (error_cycles is None or k not in error_cycles)
+        if not idle: runs[c] = 0; continue
+        runs[c] = runs.get(c, 0) + 1
+        if runs[c] >= 2:
+            return [Violation(prop, 'spin', 'connection %s is reported readable by poll in passes in which the driver does nothing at all (two in a row, up to cycle %d): a busy loop' % (c, k), prop + '/spin/readable-connection-never-read')]
+    return []
+
+
 # ---------------------------------------------------------------------------------- build
 def build(variant='asan', quiet=True, tools=('build_repo.sh', 'build_sim.sh')):
     for tool in tools:
